@@ -45,10 +45,12 @@ fn validate_onepath<const PLEN: usize, const CLEN: usize>() {
     let chain: [u64; 3] = kani::any();
     kani::assume(chain[0] >= 0x81 && chain[0] <= 0x84 && chain[1] >= 0x81 && chain[1] <= 0x84 && chain[2] >= 0x81 && chain[2] <= 0x84);
     let want = ref_match(&chain[..CLEN], &parts[..PLEN]);
-    // a matching (path, chain) pair exists for these lengths unless the path is empty and the chain is not
-    kani::cover!(want || (PLEN == 0 && CLEN > 0), "matching chain reached");
+    // a matching (path, chain) pair exists for these lengths iff the chain can hold the path's named
+    // parents (at least PLEN/2 of the parts are named, since placeholders are never adjacent)
+    let matchable = if PLEN == 0 { CLEN == 0 } else { CLEN >= PLEN / 2 };
+    kani::cover!(want || !matchable, "matching chain reached");
     kani::cover!(!want || (PLEN == 0 && CLEN == 0), "non-matching chain reached");
-    kani::cover!(PLEN < 2 || (want && is_global(&parts[0])), "match through a leading placeholder reached");
+    kani::cover!(PLEN < 2 || !matchable || (want && is_global(&parts[0])), "match through a leading placeholder reached");
     let doc = [(chain[0], EBMLSize::Known(0), 0usize), (chain[1], EBMLSize::Known(0), 0), (chain[2], EBMLSize::Known(0), 0)];
     let got = validate_tag_path::<OnePathTag>(0x90, doc.into_iter().take(CLEN));
     assert!(got == want, "C11a: validate_tag_path accepts exactly the chains the declared path matches as a pattern");
